@@ -13,7 +13,7 @@ import (
 // ticks against the real FailoverController. Ghost state: since when the partner has been down without interruption.
 func VerifC14_History() {
 	cfg := DefaultFailoverConfig()
-	cfg.GracePeriod = time.Duration(ndPick("grace", 2)) * 5 * time.Second // no drain, or a 5 s drain before the role changes
+	cfg.GracePeriod = time.Duration(ndPick("grace", vParam("graces", 2))) * 5 * time.Second // no drain, or a 5 s drain before the role changes
 	mon := &HealthMonitor{logger: zap.NewNop()}
 	mon.health.Healthy = true
 	c := NewFailoverController(cfg, "standby-node", RoleStandby, 1, mon, zap.NewNop())
@@ -43,6 +43,12 @@ func VerifC14_History() {
 	spanAtRecovery := time.Duration(-1)
 	// while the controller drains (sleeps) the partner may come back
 	vOnSleep(func(d int64) {
+		if ndPick("timers-fire-during-drain", 2) == 1 {
+			// the drain takes its time: timers that come due meanwhile run (in their own goroutines)
+			vAdvance(d)
+			vFireDue()
+			return
+		}
 		if ndPick("partner-recovers-during-drain", 2) == 1 {
 			x := ndDuration("into-drain")
 			vAssume(x >= 0 && int64(x) <= d)
